@@ -561,7 +561,8 @@ func (r *c06Runner) Step(t []string, raw string) string {
 		}
 	}
 	min := ""
-	if cls != "ok" && cls != "untranslatable" {
+	c06Minimised[cls]++
+	if cls != "ok" && cls != "untranslatable" && c06Minimised[cls] <= 3 {
 		// minimise the query text under the SAME renaming maps (symbols that disappear are simply unused)
 		min = minimiseQuery(q, func(cand string) bool {
 			c, _, _, _, _, _, _, _ := r.check(cand, params, rv, rp, kind, seed)
@@ -598,6 +599,10 @@ func b2i(b bool) int {
 // One translation is traced per case: the original for kind fresh, the renamed twin for translator / probe / explicit.
 
 var c06TraceOps int
+
+// c06Minimised counts failures per class; only the first three of a class are minimised (ddmin over the query
+// text re-translates hundreds of candidates).
+var c06Minimised = map[string]int{}
 
 var c06TracePath = filepath.Join(os.TempDir(), fmt.Sprintf("verif_c06_%d.trace", os.Getpid()))
 
